@@ -57,7 +57,8 @@ func clockTickFamily(r *hx.Run) {
 					c := clockTickCase{"clock-tick", spec, f, d.String(), tick.String()}
 					n++
 					if err != nil {
-						r.Violation("clock-tick/sign-failed", fmt.Sprintf("GenericSigner.Sign failed with a ticking clock: %v (%+v)", err, c), c)
+						// the statement speaks about produced signatures: a refused signing is evidence only
+						r.Outcome("recorded:clock-tick/sign-failed")
 						continue
 					}
 					env, err := signature.ParseEnvelope(f, sig)
